@@ -30,11 +30,11 @@ Proof. unfold liveb, node_ok_at. intros. destruct (getn g n); auto. discriminate
 (* createNode                                                                                 *)
 (* ------------------------------------------------------------------------------------------ *)
 Section Create.
-  Variables (g : graph) (nin nout nclk : nat) (req : list constr).
+  Variables (g : graph) (nin nout nclk : nat) (req : list constr) (role : N).
   Hypothesis I : ids_ok g.
   Let n0 := g_next g.
-  Let nd0 := mkNode (repeat None nin) (repeat (mkOut default_ctype []) nout) None (repeat None nclk) 0 req.
-  Let g' := createNode g nin nout nclk req.
+  Let nd0 := mkNode (repeat None nin) (repeat (mkOut default_ctype []) nout) None (repeat None nclk) 0 req role.
+  Let g' := createNodeR g nin nout nclk req role.
 
   Lemma create_fresh : getn g n0 = None.
   Proof.
@@ -44,7 +44,7 @@ Section Create.
 
   Lemma create_getn : forall k,
     getn g' k = match getn g k with Some x => Some x | None => if N.eq_dec k n0 then Some nd0 else None end.
-  Proof. intros. unfold getn, g', createNode. simpl. apply get_snoc. Qed.
+  Proof. intros. unfold getn, g', createNodeR. simpl. apply get_snoc. Qed.
 
   Lemma create_live : liveb g' n0 = true.
   Proof. unfold liveb. rewrite create_getn, create_fresh. destruct (N.eq_dec n0 n0); congruence. Qed.
@@ -81,16 +81,16 @@ Section Create.
 
   Lemma create_ids : ids_ok g'.
   Proof.
-    destruct I as (A & B & C & D & E & F). unfold ids_ok, g', createNode. simpl.
+    destruct I as (A & B & C & D & E & F). unfold ids_ok, g', createNodeR. simpl.
     rewrite keys_snoc. repeat split; auto.
     - apply NoDup_snoc; auto. intros Hin. specialize (D _ Hin). lia.
     - intros k Hin. apply in_app_or in Hin. destruct Hin as [Hin|[<-|[]]]; [specialize (D _ Hin)|]; lia.
   Qed.
 End Create.
 
-Lemma createNode_InvS : forall g nin nout nclk req, InvS g -> InvS (createNode g nin nout nclk req).
+Lemma createNodeR_InvS : forall g nin nout nclk req role, InvS g -> InvS (createNodeR g nin nout nclk req role).
 Proof.
-  intros g nin nout nclk req [I1 I3 I4 I5 I6]. constructor.
+  intros g nin nout nclk req role [I1 I3 I4 I5 I6]. constructor.
   - eapply consistent_ext; [exact I1 | apply create_drv; auto |]. intros. rewrite create_cons; auto.
   - eapply consistent_ext; [exact I3 | apply create_grp_of; auto | reflexivity].
   - exact I4.
@@ -98,10 +98,10 @@ Proof.
   - apply create_ids; auto.
 Qed.
 
-Lemma createNode_types_except : forall g nin nout nclk req,
-  InvS g -> types_ok g -> types_ok_except [g_next g] (createNode g nin nout nclk req).
+Lemma createNodeR_types_except : forall g nin nout nclk req role,
+  InvS g -> types_ok g -> types_ok_except [g_next g] (createNodeR g nin nout nclk req role).
 Proof.
-  intros g nin nout nclk req I IT.
+  intros g nin nout nclk req role I IT.
   assert (Id : ids_ok g) by apply I.
   apply (types_except_unused g); [apply I | | | | apply types_except_of_ok; auto].
   - intros x. right. apply create_drv; auto.
@@ -110,6 +110,30 @@ Proof.
     unfold liveb in Hy. rewrite Heq, create_fresh in Hy; auto. discriminate.
   - intros m Hm. right. assert (m <> g_next g) by (intros ->; apply Hm; simpl; auto).
     split; [apply create_req_old; auto|]. intros. apply otype_same_outp. apply create_outp_old; auto.
+Qed.
+
+Lemma createNode_InvS : forall g nin nout nclk req, InvS g -> InvS (createNode g nin nout nclk req).
+Proof. intros. apply createNodeR_InvS; auto. Qed.
+
+Lemma createNode_types_except : forall g nin nout nclk req,
+  InvS g -> types_ok g -> types_ok_except [g_next g] (createNode g nin nout nclk req).
+Proof. intros. apply createNodeR_types_except; auto. Qed.
+
+(* createNode, then moveToGroup *)
+Lemma createIn_Inv : forall g nin nout nclk req role grp,
+  Inv g -> ogroupb g grp = true -> Inv (moveToGroup (createNodeR g nin nout nclk req role) (g_next g) grp).
+Proof.
+  intros g nin nout nclk req role grp I P. apply Inv_split in I. destruct I as [IS IT].
+  apply Inv_split.
+  assert (Id : ids_ok g) by apply IS.
+  assert (IS1 : InvS (createNodeR g nin nout nclk req role)) by (apply createNodeR_InvS; auto).
+  split.
+  - apply moveToGroup_InvS; auto. apply create_live; auto.
+  - apply (types_except_finish [g_next g]).
+    + apply moveToGroup_types_except. apply createNodeR_types_except; auto.
+    + simpl. rewrite node_ok_at_none; auto. intros i. unfold tin_at.
+      destruct (moveToGroup_frame (createNodeR g nin nout nclk req role) (g_next g) grp) as ((D & _) & _).
+      rewrite D, create_drv; auto. unfold drv. simpl. rewrite create_fresh; auto.
 Qed.
 
 (* ------------------------------------------------------------------------------------------ *)
@@ -366,6 +390,38 @@ Proof.
 Qed.
 
 (* ------------------------------------------------------------------------------------------ *)
+(* Clock::setLogicClockDriver / setLogicResetDriver: clauses (i)-(v)                           *)
+(* ------------------------------------------------------------------------------------------ *)
+Lemma Inv_with_drv : forall g m, Inv g -> Inv (with_drv g m).
+Proof. intros g m [I1 I2 I3 I4 I5 I6]. constructor; auto. Qed.
+
+Lemma attachClock_Inv : forall g a c, Inv g -> clk_validb g a = true -> oclockb g c = true -> Inv (attachClock g a c).
+Proof.
+  intros g a c I Va Vc. apply Inv_split in I. destruct I as [IS IT]. apply Inv_split. split.
+  - apply attachClock_InvS; auto.
+  - apply types_except_nil. apply (types_except_nframe g); [apply attachClock_frame | apply types_except_nil; auto].
+Qed.
+
+Lemma setLogicDriver_Inv : forall which g c n, Inv g ->
+  op_struct_pre g (OSetDriver which c n) = true -> Inv (setLogicDriver which g c n).
+Proof.
+  intros which g c n I P. simpl in P.
+  repeat (apply andb_true_iff in P; destruct P as [P ?]).
+  rename H2 into Vn. rename H0 into Vold.
+  unfold setLogicDriver.
+  set (g1 := match drv_of which g c with Some old => attachClock g (old, 0) None | None => g end).
+  assert (I1 : Inv g1 /\ same_skel g g1 /\ forall x, clk_validb g1 x = clk_validb g x).
+  { unfold g1. destruct (drv_of which g c) as [old|].
+    - destruct (attachClock_frame g (old, 0) None) as (_ & _ & S & V). split; [apply attachClock_Inv; auto | auto].
+    - split; auto. split; [reflexivity | auto]. }
+  destruct I1 as (I1 & S1 & V1).
+  apply attachClock_Inv.
+  - apply Inv_with_drv; auto.
+  - change (clk_validb g1 (n, 0) = true). rewrite V1; auto.
+  - simpl. change (clockb g1 c = true). rewrite (clockb_skel g g1 S1). auto.
+Qed.
+
+(* ------------------------------------------------------------------------------------------ *)
 (* every operation                                                                            *)
 (* ------------------------------------------------------------------------------------------ *)
 Lemma andb3 : forall a b c, a && b && c = true -> a = true /\ b = true /\ c = true.
@@ -374,19 +430,10 @@ Proof. intros. repeat (apply andb_true_iff in H; destruct H as [H ?]). auto. Qed
 Theorem exec_preserves_Inv : forall g o, Inv g -> op_pre g o = true -> Inv (exec g o).
 Proof.
   intros g o I P. unfold op_pre in P. apply andb_true_iff in P. destruct P as [P PT].
+  apply andb_true_iff in P. destruct P as [P PR].
   pose proof I as I0. apply Inv_split in I0. destruct I0 as [IS IT].
   destruct o; simpl in *.
-  - (* OCreate *)
-    apply Inv_split.
-    assert (Id : ids_ok g) by apply IS.
-    assert (IS1 : InvS (createNode g nin nout nclk req)) by (apply createNode_InvS; auto).
-    split.
-    + apply moveToGroup_InvS; auto. apply create_live; auto.
-    + apply (types_except_finish [g_next g]).
-      * apply moveToGroup_types_except. apply createNode_types_except; auto.
-      * simpl. rewrite node_ok_at_none; auto. intros i. unfold tin_at.
-        destruct (moveToGroup_frame (createNode g nin nout nclk req) (g_next g) grp) as ((D & _) & _).
-        rewrite D, create_drv; auto. unfold drv. simpl. rewrite create_fresh; auto.
+  - (* OCreate *) apply createIn_Inv; auto.
   - (* OAddGroup *) apply addGroup_Inv; auto.
   - (* OCreateClock *) apply createClock_Inv; auto.
   - (* OConnect *)
@@ -436,6 +483,8 @@ Proof.
     destruct (removeRef_InvS g n IS) as [A B]. apply Inv_split. split; auto.
     apply types_except_nil. apply (types_except_nframe g); [auto | apply types_except_nil; auto].
   - (* ODestroy *) apply destroyNode_preserves_Inv; auto.
+  - (* OCreateDriver *) apply createIn_Inv; auto.
+  - (* OSetDriver *) apply setLogicDriver_Inv; auto.
 Qed.
 
 Theorem step_preserves_Inv : forall g o, Inv g -> Inv (step g o).
@@ -550,6 +599,7 @@ Definition keeps_grouped (o : op) : bool :=
   match o with
   | OCreate _ _ _ _ None => false
   | OMoveToGroup _ None => false
+  | OCreateDriver _ None => false
   | _ => true
   end.
 
@@ -566,31 +616,63 @@ Proof.
 Qed.
 
 Lemma sgframe_upd_ref : forall g n (h : node -> node),
-  (forall nd, n_grp (h nd) = n_grp nd) -> sgframe g (upd_node g n h).
+  (forall nd, n_grp (h nd) = n_grp nd) -> (forall nd, n_role (h nd) = n_role nd) -> sgframe g (upd_node g n h).
 Proof.
-  intros. split; [split; intros; [|reflexivity]|apply skeleton_upd_node].
+  intros. split; [split; intros; [|reflexivity]|apply skeleton_upd_node; auto].
   unfold grp_of. apply node_view_upd_same. auto.
+Qed.
+
+Lemma sgframe_attach : forall g a c, sgframe g (attachClock g a c).
+Proof. intros. destruct (attachClock_frame g a c) as (_ & G & S & _). split; auto. Qed.
+
+(* setLogicDriver touches clock ports and the driver table only *)
+Lemma setLogicDriver_frame : forall which g c n,
+  let g' := setLogicDriver which g c n in
+  nframe g g' /\ same_groups g g' /\ (forall k, liveb g' k = liveb g k) /\ (forall k, role_of g' k = role_of g k) /\
+  (forall k, clockb g' k = clockb g k) /\ (forall x, clk_validb g' x = clk_validb g x).
+Proof.
+  intros. unfold g', setLogicDriver.
+  set (g1 := match drv_of which g c with Some old => attachClock g (old, 0) None | None => g end).
+  assert (F1 : nframe g g1 /\ same_groups g g1 /\ same_skel g g1 /\ (forall x, clk_validb g1 x = clk_validb g x)).
+  { unfold g1. destruct (drv_of which g c); [apply attachClock_frame|].
+    split; [apply nframe_refl|]. split; [split; auto|]. split; [reflexivity|auto]. }
+  destruct F1 as (N1 & (G1a & G1b) & S1 & V1).
+  set (g2 := set_drv g1 c which (Some n)).
+  destruct (attachClock_frame g2 (n, 0) (Some c)) as (N3 & (G3a & G3b) & S3 & V3).
+  split; [eapply nframe_trans; [exact N1|]; exact N3|].
+  split; [split; intros; [rewrite G3a | rewrite G3b]; [apply G1a | apply G1b]|].
+  split; [intros; rewrite (liveb_skel g2 _ S3); change (liveb g1 k = liveb g k); apply liveb_skel; auto|].
+  split; [intros; rewrite (role_of_skel g2 _ k S3); change (role_of g1 k = role_of g k); apply role_of_skel; auto|].
+  split; [intros; rewrite (clockb_skel g2 _ S3); change (clockb g1 k = clockb g k); apply clockb_skel; auto|].
+  intros. rewrite V3. change (clk_validb g1 x = clk_validb g x). apply V1.
+Qed.
+
+Lemma createIn_AllGrouped : forall g nin nout nclk req role gid,
+  InvS g -> AllGrouped g -> AllGrouped (moveToGroup (createNodeR g nin nout nclk req role) (g_next g) (Some gid)).
+Proof.
+  intros g nin nout nclk req role gid IS A.
+  assert (Id : ids_ok g) by apply IS.
+  set (g1 := createNodeR g nin nout nclk req role).
+  assert (IS1 : InvS g1) by (apply createNodeR_InvS; auto).
+  assert (L1 : liveb g1 (g_next g) = true) by (apply create_live; auto).
+  apply AllGrouped_alt. intros k Lk.
+  destruct (N.eq_dec k (g_next g)) as [->|Hk].
+  - rewrite (moveToGroup_grp_of g1 (g_next g) (Some gid)); [discriminate | apply IS1 | exact L1].
+  - rewrite moveToGroup_grp_of_other by auto. unfold g1. rewrite create_grp_of by auto.
+    apply AllGrouped_alt; auto.
+    rewrite (liveb_skel g1) in Lk by apply moveToGroup_frame.
+    unfold liveb, g1 in Lk. rewrite create_getn in Lk by auto. unfold liveb.
+    destruct (getn g k); auto. destruct (N.eq_dec k (g_next g)); [congruence | discriminate].
 Qed.
 
 Theorem exec_preserves_AllGrouped : forall g o,
   Inv g -> AllGrouped g -> op_pre g o = true -> keeps_grouped o = true -> AllGrouped (exec g o).
 Proof.
   intros g o I A P K. unfold op_pre in P. apply andb_true_iff in P. destruct P as [P _].
+  apply andb_true_iff in P. destruct P as [P _].
   apply Inv_split in I. destruct I as [IS _].
   destruct o; simpl in *.
-  - (* OCreate *) destruct grp as [gid|]; [|discriminate].
-    assert (Id : ids_ok g) by apply IS.
-    set (g1 := createNode g nin nout nclk req).
-    assert (IS1 : InvS g1) by (apply createNode_InvS; auto).
-    assert (L1 : liveb g1 (g_next g) = true) by (apply create_live; auto).
-    apply AllGrouped_alt. intros k Lk.
-    destruct (N.eq_dec k (g_next g)) as [->|Hk].
-    + rewrite moveToGroup_grp_of; auto; [discriminate | apply IS1].
-    + rewrite moveToGroup_grp_of_other by auto. unfold g1. rewrite create_grp_of by auto.
-      apply AllGrouped_alt; auto.
-      rewrite (liveb_skel g1) in Lk by apply moveToGroup_frame.
-      unfold liveb, g1 in Lk. rewrite create_getn in Lk by auto. unfold liveb.
-      destruct (getn g k); auto. destruct (N.eq_dec k (g_next g)); [congruence | discriminate].
+  - (* OCreate *) destruct grp as [gid|]; [|discriminate]. apply createIn_AllGrouped; auto.
   - (* OAddGroup *) exact A.
   - (* OCreateClock *) exact A.
   - apply (AllGrouped_frame g); auto. apply sgframe_eframe. apply eframe_connect.
@@ -612,8 +694,8 @@ Proof.
     + destruct (attachClock_frame (push_clk g n) (n, length (n_clks n0)) c) as (_ & G & S & _). split; auto.
   - apply (AllGrouped_frame g); auto. destruct (attachClock_frame g a c) as (_ & G & S & _). split; auto.
   - apply (AllGrouped_frame g); auto. destruct (detachClock_frame g a) as (_ & G & S & _). split; auto.
-  - apply (AllGrouped_frame g); auto. apply sgframe_upd_ref. auto.
-  - apply (AllGrouped_frame g); auto. apply sgframe_upd_ref. intros nd. destruct (N.eqb (n_ref nd) 0); auto.
+  - apply (AllGrouped_frame g); auto. apply sgframe_upd_ref; auto.
+  - apply (AllGrouped_frame g); auto. apply sgframe_upd_ref; intros nd; destruct (N.eqb (n_ref nd) 0); auto.
   - (* ODestroy *)
     destruct (getn g n) as [nd|] eqn:Hn; [|discriminate].
     destruct (predestroy_props g n nd IS Hn) as (I4 & S4 & Hg & Hc & Hd & Ho & _ & Go).
@@ -623,6 +705,10 @@ Proof.
     destruct (N.eq_dec k n) as [|Hk]; [discriminate|].
     rewrite del_grp_of by auto. rewrite Go by auto. apply AllGrouped_alt; auto.
     rewrite <- (liveb_skel g _ S4). exact Lk.
+  - (* OCreateDriver *) destruct grp as [gid|]; [|discriminate]. apply createIn_AllGrouped; auto.
+  - (* OSetDriver *)
+    destruct (setLogicDriver_frame which g c n) as (_ & (G & _) & L & _).
+    apply AllGrouped_alt. intros k Lk. rewrite G. apply AllGrouped_alt; auto. rewrite <- L. exact Lk.
 Qed.
 
 Definition stepG (g : graph) (o : op) : graph := if keeps_grouped o then step g o else g.
